@@ -10,7 +10,7 @@ import re
 from . import common as C
 from .simengine import lockstep, monitors, resizestep, sweep, world as W
 
-LOCKSTEP_FAMILIES = {"cancelshut", "concurrent", "respawn", "saturate", "mixed", "notimeout", "contain", "crash", "kill", "init", "leak", "break", "graceful", "timeouts"}
+LOCKSTEP_FAMILIES = {"killwith", "cancelshut", "concurrent", "respawn", "saturate", "mixed", "notimeout", "contain", "crash", "kill", "init", "leak", "break", "graceful", "timeouts"}
 
 
 def _sig(rec):
@@ -157,7 +157,7 @@ class E1Part:
                 jobs.append({"family": fam, "seed": base + i, "props": self.props, "futyield": fy,
                              "lockstep": self.lockstep_on and fam in LOCKSTEP_FAMILIES and not fy,
                              "starve_bodies": bool(self.starve and i % self.starve == 0
-                                                   and fam in ("kill", "saturate", "saturateleak", "satreuse")),
+                                                   and fam in ("kill", "killwith", "saturate", "saturateleak", "satreuse")),
                              "pct": i % 5 in (1, 3) and fam not in ("saturate",),
                              "delay": (i % 5 == 4 or (i % 5 == 2 and fam.startswith("reuse"))) and not fy
                                       and fam not in ("saturate", "saturateleak", "satreuse"),
